@@ -44,6 +44,8 @@ type Galaxy struct {
 	pmhandler *portmapping.PortMappingHandler
 	client    kubernetes.Interface
 	pm        *policy.PolicyManager
+	// hostPortOwners tells for which sandbox the host ports of a pod were opened
+	hostPortOwners hostPortOwners
 }
 
 type JsonConf struct {
